@@ -14,12 +14,12 @@ from harness.props import merging as mg
 from harness.props import editing as ed
 
 RULE = ("left documents x merge paths x right documents x policies.  Small part: every left document with <= 3 nodes "
-        "(quick; <= 4 thorough) over scalars null 1 2 'a' true 1.0, keys a b, set members a b 1, each with its path "
+        "(thorough: also all with 4 nodes against the <= 2-node right documents) over scalars null 1 2 'a' true 1.0, keys a b, set members a b 1, each with its path "
         "vocabulary {root, the exact path of every node, the wildcard over the children of every container (multiple "
         "targets), a missing key / index below every container (creatable: one and two segments, list padding), a key below "
-        "every scalar and a search that matches nothing (not creatable)} x every right document with <= 2 nodes (quick; <= 3 "
-        "thorough: every root kind) x 4 of the 180 hash x array x aoh x set combinations rotating through all of them "
-        "(quick) / all 180 (thorough).  Random part: left documents of up to ~25 nodes (maps, lists, arrays-of-hashes, sets, "
+        "every scalar and a search that matches nothing (not creatable)} x every right document with <= 2 nodes (every root kind; "
+        "thorough: also every one with 3 nodes) x 4 of the 180 hash x array x aoh x set combinations rotating through all of them "
+        "(quick) / all 180 for the <= 2-node right documents (thorough).  Random part: left documents of up to ~25 nodes (maps, lists, arrays-of-hashes, sets, "
         "empty containers), a target chosen in them, merge paths {exact in dot or slash notation, wildcard / search / "
         "attribute-search / slice / traversal variants yielding several targets, missing creatable tails of 1-3 segments, "
         "not creatable}, right documents derived from the targeted node (shared keys, kind clashes) or random of every root "
@@ -774,6 +774,18 @@ def cli_checks(chk, cases):
     chk.count("cli:successful-merges", n_ok)
 
 
+def widen(chk: core.Check):
+    """Bigger failing-input search (x5 random budget on fresh seeds), used only when a proof obligation or the
+    correspondence is broken and no concrete failing input is known."""
+    core.use_repo()
+    jobs = [("RAND", chk.seed * 7919 + 1000003 + i, 2000) for i in range(400 if chk.tier == "quick" else 1000)]
+    for stats, findings, _samples, _nt, _hist in core.pmap(_job, jobs):
+        chk.evaluations += stats["n"]
+        for kind_, sig, what, case in findings:
+            if kind_ == "violation":
+                chk.violation(sig, what, case)
+
+
 def _job(job):
     if job[0] == "EXH":
         return _exh_job(job)
@@ -802,23 +814,31 @@ def run(chk: core.Check):
             cli_checks(chk, [case])
     else:
         table_checks(chk)
-        lb = int(os.environ.get("YPV_EXH_BOUND") or (3 if tier == "quick" else 4))   # developer override only
-        rb = 2 if tier == "quick" else 3
-        npol = 4 if tier == "quick" else 180
-        lefts = mg.docs_up_to(lb)
-        rights = mg.docs_up_to(rb)
-        rng.shuffle(lefts)
+        lb = int(os.environ.get("YPV_EXH_BOUND") or 3)   # developer override only
         jobs = [("CORPUS", [dict(c, cat="corpus") for c in CORPUS])]
-        per = 6 if tier == "quick" else 2
         off = rng.randrange(180)
-        jobs += [("EXH", lefts[i:i + per], rights, npol, off + i * 50) for i in range(0, len(lefts), per)]
+        small_l, small_r = mg.docs_up_to(lb), mg.docs_up_to(2)
+        rng.shuffle(small_l)
+        if tier == "quick":
+            grids = [(small_l, small_r, 4, 6)]
+            bound = ("all %d left documents with <= %d nodes x their whole path vocabulary x all %d right documents with <= 2 "
+                     "nodes x 4 of 180 policy combinations (rotating through all 180)" % (len(small_l), lb, len(small_r)))
+        else:
+            l4 = mg.docs_of_size(lb + 1)
+            r3 = mg.docs_of_size(3)
+            rng.shuffle(l4)
+            grids = [(small_l, small_r, 180, 1), (small_l, r3, 4, 4), (l4, small_r, 2, 50)]
+            bound = ("all %d left documents with <= %d nodes x their whole path vocabulary x {all %d right documents with <= 2 "
+                     "nodes x all 180 policy combinations; all %d right documents with 3 nodes x 4 of 180 (rotating)}; all %d "
+                     "left documents with %d nodes x vocabulary x right documents <= 2 nodes x 2 of 180 (rotating)" % (
+                         len(small_l), lb, len(small_r), len(r3), len(l4), lb + 1))
+        for lefts, rights, npol, per in grids:
+            jobs += [("EXH", lefts[i:i + per], rights, npol, off + i * 50) for i in range(0, len(lefts), per)]
         nrand = int(os.environ.get("YPV_NRAND") or (160000 if tier == "quick" else 2000000))
         per_job = 2000
         jobs += [("RAND", chk.seed * 100003 + i, per_job) for i in range(nrand // per_job)]
         chk.exhaustive = True
-        chk.extra_cov["exhaustive_bound"] = (
-            "all %d left documents with <= %d nodes x their whole path vocabulary x all %d right documents with <= %d nodes x "
-            "%s policy combinations" % (len(lefts), lb, len(rights), rb, "all 180" if npol == 180 else "%d of 180 (rotating)" % npol))
+        chk.extra_cov["exhaustive_bound"] = bound
         chk.extra_cov["random_cases"] = nrand
         results = core.pmap(_job, jobs)
         crng = random.Random(chk.seed + 17)
